@@ -44,6 +44,7 @@ structure Scan where
   counts : Bool := true
   setsConsistent : Bool := true
   noStartAfterStop : Bool := true
+  loads : Nat := 0
 
 def poolDepth (pools : List Pool) (name : Bytes) : Option Nat :=
   (pools.find? (·.name == name)).map (·.depth)
@@ -77,6 +78,10 @@ def step (g : Graph) (a : Run.Args) (pools : List Pool) (sc : Scan) (e : Ev) : S
       successes := if t == .success then sc.successes + 1 else sc.successes,
       interrupted := sc.interrupted || t == .interrupted,
       setsConsistent := sc.setsConsistent && sc.running.contains b }
+  | .load =>
+    -- a new `Work`: every build is Unknown again; nothing may still be running
+    { sc with st := fun _ => .unknown, started := [], failed := [], lastDone := 0, lastFailed := 0,
+              loads := sc.loads + 1, setsConsistent := sc.setsConsistent && sc.running.isEmpty }
   | .update cs =>
     let expect := [St.want, .ready, .queued, .running, .done, .failed].map (countSt g sc.st)
     let done := cs.getD 4 0
@@ -101,9 +106,14 @@ def wantedFiles (g : Graph) (a : Run.Args) : Option (List Nat) :=
   else some ((List.range g.nFiles).filter (· ≠ a.manifest))
 
 /-- Builds in the closure of the wanted files over ordering and validation producers. -/
-def wantedBuilds (g : Graph) (a : Run.Args) (files : List Nat) : List Nat :=
+def wantedBuilds (g : Graph) (a : Run.Args) (files : List Nat) (withManifest : Bool := true) : List Nat :=
   closure (allProducers g) (g.nBuilds * g.nBuilds + g.nBuilds + 1)
-    ((a.manifest :: files).filterMap g.producer) []
+    ((if withManifest then a.manifest :: files else files).filterMap g.producer) []
+
+/-- Is some build of `bs` on a cycle of ordering edges (it reaches itself through producers of
+    ordering inputs)? -/
+def hasOrderingCycle (g : Graph) (bs : List Nat) : Bool :=
+  bs.any (fun b => (ancestors g b).contains b)
 
 structure Verdicts where
   startsAfterDeps : Bool
@@ -119,13 +129,16 @@ structure Verdicts where
   summaryOk : Bool           -- `ran N tasks`: N = number of successful commands
   decided : Bool             -- no failure/interrupt/error ⇒ success; never the BUG panic
   stopsOnInterrupt : Bool
+  cycleSound : Bool          -- a `dependency cycle` diagnostic only if the requested closure has one
+  cycleComplete : Bool       -- an ordering cycle in the requested closure is never built through
 
 /-- `result`: the observed outcome token (`ok n`, `fail`, `err ..`, `panic ..`). -/
 def verdicts (g : Graph) (a : Run.Args) (result : List String) (tr : List Ev) : Verdicts :=
   let sc := scan g a tr
   let wanted := wantedFiles g a
   let touched := (List.range g.nBuilds).filter (fun b => sc.st b != .unknown)
-  let cl := match wanted with | some fs => wantedBuilds g a fs | none => []
+  -- after a reload the manifest itself is not wanted again
+  let cl := match wanted with | some fs => wantedBuilds g a fs (sc.loads ≤ 1) | none => []
   let isOk := result.head? == some "ok"
   let isErr := result.head? == some "err"
   let isPanic := result.head? == some "panic" || result.head? == some "abort"
@@ -144,13 +157,33 @@ def verdicts (g : Graph) (a : Run.Args) (result : List String) (tr : List Ev) : 
     exitOk := !isOk || (sc.failures == 0 && !sc.interrupted && touched.all (fun b => sc.st b == .done))
     summaryOk := !isOk || n == sc.successes
     decided := !isPanic && (isOk || isErr || sc.failures > 0 || sc.interrupted)
-    stopsOnInterrupt := sc.noStartAfterStop }
+    stopsOnInterrupt := sc.noStartAfterStop
+    cycleSound :=
+      let isCycleErr := match result with
+        | ["err", h] => (match bytesOfHex h with
+          | some b => (stringOfBytes b).startsWith "dependency cycle"
+          | none => false)
+        | _ => false
+      -- the requested steps (closure over ordering AND validation edges) of everything that
+      -- may have been requested; the cycle itself must consist of ordering edges
+      let reach := closure (allProducers g) (g.nBuilds * g.nBuilds + g.nBuilds + 1)
+        (match wanted with
+         | some fs => (a.manifest :: fs).filterMap g.producer
+         | none => (List.range g.nFiles).filterMap g.producer) []
+      !isCycleErr || hasOrderingCycle g reach
+    cycleComplete :=
+      let reach := match wanted with
+        | some fs => closure (allProducers g) (g.nBuilds * g.nBuilds + g.nBuilds + 1)
+            ((if sc.loads ≤ 1 then a.manifest :: fs else fs).filterMap g.producer) []
+        | none => []
+      !isOk || !hasOrderingCycle g reach }
 
 def Verdicts.toList (v : Verdicts) : List (String × Bool) :=
   [("startsAfterDeps", v.startsAfterDeps), ("startsOnce", v.startsOnce), ("withinLimits", v.withinLimits),
    ("failuresContained", v.failuresContained), ("budgetRespected", v.budgetRespected),
    ("countsOk", v.countsOk), ("traceConsistent", v.traceConsistent), ("onlyWanted", v.onlyWanted),
    ("closureComplete", v.closureComplete), ("exitOk", v.exitOk), ("summaryOk", v.summaryOk),
-   ("decided", v.decided), ("stopsOnInterrupt", v.stopsOnInterrupt)]
+   ("decided", v.decided), ("stopsOnInterrupt", v.stopsOnInterrupt),
+   ("cycleSound", v.cycleSound), ("cycleComplete", v.cycleComplete)]
 
 end N2V.Mon
